@@ -438,7 +438,7 @@ func ruleEOFWorld(c *Ctx, rule string) {
 
 // rulePanicInventory lists the explicit panics reachable from roots inside the given packages and discharges each one.
 // trusted: fnName -> reason (frozen table).
-func rulePanicInventory(c *Ctx, rule string, roots []*ssa.Function, pkgs []string, trusted map[string]string, floor int) {
+func rulePanicInventory(c *Ctx, rule string, roots []*ssa.Function, pkgs []string, trusted map[string]string, floor int, special ...map[string]func() (bool, string)) {
 	r := c.R
 	if anyNil(roots) {
 		r.Ob(rule, "anchor roots", "").Und("a root function was not found")
@@ -513,6 +513,16 @@ func rulePanicInventory(c *Ctx, rule string, roots []*ssa.Function, pkgs []strin
 			if why, ok := trusted[name]; ok {
 				ob.Exc("trusted (frozen table): " + why)
 				return
+			}
+			for _, sp := range special {
+				if f, ok := sp[name]; ok {
+					if okd, why := f(); okd {
+						ob.OKnt(why)
+					} else {
+						ob.Bad(why)
+					}
+					return
+				}
 			}
 			if exh[declName] && nonExh[declName] == "" {
 				ob.OKnt("default of an exhaustive switch over a constant type " + msg + ": unreachable")
